@@ -41,11 +41,15 @@ MANIFEST = {
             "getters return, for any previously stored sizes (C18_information_pgns, C18_information_conf: strings = what "
             "GetVarStr leaves in exact-size buffers); the first 126996 after a claim is what is reported, except when the "
             "claimed address already holds the NAME's own parked entry (C18_information_prod_partial + "
-            "C18_parked_entry_witness, open finding). Correspondence: a real tN2kDeviceList behind a mock node under "
+            "C18_parked_entry_witness, open finding); FindDeviceByIDs / FindDeviceByProduct return an entry of the list "
+            "(of the searched range) whose NAME bits / product code match, nothing only for N/A arguments or when no entry "
+            "matches (C18_find_by_ids, C18_find_by_product); the request-due rule (C18_request_due). Correspondence: a real tN2kDeviceList behind a mock node under "
             "ASan/UBSan against the model on exhaustive short claim histories, a full 254-entry table with takeovers, and "
             "random histories (2..252 sources, NAME 0/all-ones, moves, takeovers, re-claims, truncated claims, "
             "126996/126998/126464 of all sizes, repeated with different field sizes, malformed payloads, both send outcomes, "
-            "clock origins around 2^31/2^32) with reference maps as oracle.",
+            "clock origins around 2^31/2^32) with reference maps as oracle; everything is observed through the PUBLIC interface only (FindDeviceBySource/ByName/"
+            "ByIDs/ByProduct, Count, the virtual getters of the returned tDevice), with independent oracles for Count, the "
+            "NAME-derived getters and both remaining lookups; gcov: 100% of the lines and functions of N2kDeviceList.cpp/.h.",
     'design_ref': 'DESIGN.md section 4, C18',
     'note': "Trusted: Lean kernel; hand transcription of N2kDeviceList.cpp (with the four fix commits) validated only by "
             "differential runs; C16 parser models (what GetStr/GetVarStr leave in a buffer is C16's subject); SendMsg and "
